@@ -41,9 +41,18 @@ def check(rep, ctx):
     R_R = rep.rule("C17-record", "a record is written as varint length + attributes, timestamp delta, offset delta, key, value, headers", floor=6)
     R_T = rep.rule("C17-time", "timestamp -> millisecond conversions do not truncate an inexact float (T-trunc)", floor=3,
                    necessary_because="1970-01-01T00:00:01.001Z * 1000 = 1000.9999999999999 -> int() -> 1000")
+    file = ctx.sm.require("kio.records.writers").rel
+    # concrete boundary cases first (they need no symbolic summary): the record length prefix equals the number of bytes that follow
+    from ..records import concrete_record_length_rows
+    rfn0 = RA.fn(RA.rw, "write_record")
+    for row in concrete_record_length_rows(RA):
+        if row["ok"] is None:
+            rep.limit(f"{rfn0.ref}: {row['message']}")
+            continue
+        rep.check(R_R, row["ok"], construct=rfn0.ref, stmt=row["case"], message=row["message"], file=file, line=rfn0.node.lineno,
+                  instance="concrete-lengths" if row["ok"] else row["case"])
     W = RA.new_batch_writer()
     fn = W["fn"]
-    file = ctx.sm.require("kio.records.writers").rel
     nb = W["param"].term
     records = ("attr", nb, "records")
     rets = [p for p in W["paths"] if p.outcome == "return"]
